@@ -218,7 +218,7 @@ example : ∀ x ∈ [[1, 2, 3, 4], [5, 6, 7, 8]], x.length = 4 := by decide
 /-- **Source shapes**: the guard conditions, level arithmetic and wrapping expressions the models
 of `RleEncoder`, `BitWriter` / `BitReader`, `LevelInfoBuilder` and `DeltaBitPackEncoder` were
 written from are still literally present in the sources (regenerated by `tools/translate.py` on
-every run; an edit of any of these 37 fragments makes its item LOST and this theorem false, so the
+every run; an edit of any of these 40 fragments makes its item LOST and this theorem false, so the
 change is reported even when the sampled correspondence would not see it). -/
 theorem source_shapes_present :
     SH_RLE_PUT_SKIP_lost = false ∧
@@ -236,6 +236,9 @@ theorem source_shapes_present :
     SH_BW_PUT_lost = false ∧
     SH_BW_CARRY_lost = false ∧
     SH_BR_GET_lost = false ∧
+    SH_BR_VLQ_LIMIT_lost = false ∧
+    SH_RLE_BOOL_EMPTY_FLUSH_lost = false ∧
+    SH_LV_CHUNK_BOUNDS_lost = false ∧
     SH_BR_BOUND_lost = false ∧
     SH_LV_LIST_DEF_lost = false ∧
     SH_LV_STRUCT_DEF_lost = false ∧
